@@ -133,9 +133,11 @@ def shared_stores(ctx: Optional[Ctx], fn: FuncInfo) -> List[Store]:
                     if owner not in ("local",):
                         out.append(Store(fn, n, r, norm(x), owner, value))
                 if isinstance(x, ast.Name) and isinstance(x.ctx, ast.Store):
-                    owner = classify_owner(ctx, fn, defs, x.id)
-                    if owner in ("module", "closure"):
-                        out.append(Store(fn, n, x.id, x.id, owner, value))
+                    # re-binding a plain local never touches shared state, whatever the local aliases; only names
+                    # declared global / nonlocal are shared cells
+                    decl = [d for d in own_nodes(fn.node) if isinstance(d, (ast.Global, ast.Nonlocal)) and x.id in d.names]
+                    if decl:
+                        out.append(Store(fn, n, x.id, x.id, "module" if isinstance(decl[0], ast.Global) else "closure", value))
         if isinstance(n, ast.Call) and isinstance(n.func, ast.Attribute) and n.func.attr in MUTATORS:
             r = root_name(n.func.value)
             if r is None:
@@ -275,8 +277,7 @@ def run(ctx: Ctx, rep: Report) -> None:
     rep.check(ok, "C14-R2", enc.site(), "the timing cache is written and read (set_engine_timing ... generate_request_message) without an await in between", key=f"{enc.key}|timing-cache-await")
     from . import c12
 
-    sub = Report(rep.prop, rep.tier)
-    c12.run(ctx, sub)
+    sub = ctx.sub_run("c12", rep)
     rep.adopt_rules(sub, "C14-R4", ["C12-R1"])
     send = ctx.send_method()
     own_writes = [s for s in stores if s.fn == send]
